@@ -218,7 +218,10 @@ impl AbsTl {
         let duration: f32 = kani::any();
         let threshold: f32 = kani::any();
         kani::assume(delay >= 0.0 && delay.is_finite());
-        kani::assume(duration >= delay);
+        // a cycle has positive length, so the animation proper starts before it ends (the degenerate
+        // duration() == delay(), possible only when a huge delay absorbs the whole span in f32, is excluded:
+        // there "shows the start values up to the delay" and "terminal from the duration on" contradict)
+        kani::assume(duration > delay);
         kani::assume(!threshold.is_nan());
         // TL includes terminal constancy: from `duration()` on the values no longer change (for real
         // timelines this is C03's `ts_lemma_duration_agrees_*`: every position at t >= total is the
